@@ -307,6 +307,9 @@ ADDENDA11 = {
     'C15': ' Parameter-name family (476 names from the library\'s own code objects as parameters of every kind of callable, from Python and OAL) '
            'and shadow family (locals named like functions, constants, enumerations, external entities, classes; read-call-read histories).',
     'C17': ' A palette of elements every use of which is a fresh equal copy.',
+    'C06': ' Handles family: `<handle>.<name>` reads and writes through every kind of handle expression (parameters of type inst_ref, array '
+           'elements, attributes and structure members holding handles, chains) for names the translation treats specially (length), beside genuine array lengths.',
+    'C14': ' Relationships may share a number (renumbering to the number of another simple relationship between other classes).',
     'C07': ' Names family: every non-keyword token name of the grammar and 33 keyword-like names as identifier in fifteen name positions.',
     'C08': ' Operation bodies whose keyword operators have operands with an effect are compared across spellings.',
     'C10': ' Null family: None, the null value of the type and a non-null value written under every spelling to identifying, plain and '
@@ -316,7 +319,7 @@ ADDENDA11 = {
     'C12': ' The statement pool holds a class without attributes, associations to and from it, a row and an identifier of it; value flips '
            'include strings whose content looks like another lexical class.',
     'C18': ' The chunks carry a two-attribute-key association; an identifier listing the referred attributes the other way round is '
-           'added to one built metamodel.',
+           'added to one built metamodel; the reference loader of every build gets the accepted input as one text.',
     'C19': ' Names family: attribute names drawn from the identifiers of the library\'s own code objects (209 quick / 351 thorough) in every '
            'creation form and route, read back and cloned.',
     'C20': ' A second data type under the name of an existing enumeration / user type is added in every other place.',
